@@ -5,7 +5,6 @@ import (
 	"go/constant"
 	"go/token"
 	"go/types"
-	"strings"
 
 	"golang.org/x/tools/go/ssa"
 
@@ -36,31 +35,55 @@ func complitField(v ssa.Value, name string) ssa.Value {
 	return found
 }
 
-// connectHandler finds the module function that calls AuthenticationHandler.Authenticate (the CONNECT handler).
+// connectHandler finds the CONNECT handler: the innermost function of package wasp from which authentication,
+// session-record creation and the CONNACK write are all reached. The returned call is the Authenticate call (it may sit in a helper).
 func (c *Ctx) connectHandler(ru *report.Rule) (*ssa.Function, *core.Call) {
 	authm := c.im(ru, "wasp", "AuthenticationHandler", "Authenticate")
-	if authm == nil {
+	sessCreate := c.im(ru, "wasp/distributed", "SessionMetadatasState", "Create")
+	connAck := c.cm(ru, pkgEncoder, "Encoder", "ConnAck")
+	if authm == nil || sessCreate == nil || connAck == nil {
 		return nil, nil
 	}
-	var fn *ssa.Function
+	fns := c.deepestReachingAll("wasp", authm, sessCreate, connAck)
+	if !ru.Anchor(len(fns) == 1, fmt.Sprintf("the CONNECT handler (innermost function of package wasp reaching Authenticate, SessionMetadatas.Create and ConnAck; found %d)", len(fns))) {
+		return nil, nil
+	}
 	var call *core.Call
 	n := 0
-	sites := c.modFuncsCalling(authm)
-	for _, f := range sortedFuncs(sites) {
-		if !strings.HasSuffix(f.Package().Pkg.Path(), "/wasp") {
-			continue
+	reach := c.P.Reach([]*ssa.Function{fns[0]}, func(from *ssa.Function, cl *core.Call, to *ssa.Function) bool {
+		if cl != nil {
+			if _, isGo := cl.Instr.(*ssa.Go); isGo || cl.Invoke {
+				return false
+			}
 		}
-		fn, call = f, sites[f][0]
-		n += len(sites[f])
+		return to.Package() == fns[0].Package() && to.Parent() == nil
+	})
+	for f := range reach {
+		for _, cl := range core.CallsTo(f, authm) {
+			call = cl
+			n++
+		}
 	}
-	if n != 1 {
-		ru.Anchor(false, fmt.Sprintf("the CONNECT handler (exactly one call of wasp.AuthenticationHandler.Authenticate in package wasp; found %d)", n))
+	if !ru.Anchor(n == 1, fmt.Sprintf("exactly one Authenticate call on the CONNECT path (found %d)", n)) {
 		return nil, nil
 	}
-	return fn, call
+	c.R.CallSites++
+	return fns[0], call
 }
 
-// authErrAtom returns, for a path of the CONNECT handler, whether the authentication error was nil (true), non-nil (false), and whether it was tested.
+// handlerPaths enumerates the CONNECT handler's paths with its helpers inlined.
+func (c *Ctx) handlerPaths(handler *ssa.Function, a *setupAnchors) ([]*core.Path, error) {
+	authm := c.P.IfaceMethod("wasp", "AuthenticationHandler", "Authenticate")
+	interesting := func(cl *core.Call) bool {
+		if _, isGo := cl.Instr.(*ssa.Go); isGo {
+			return true
+		}
+		return cl.Is(authm, a.newSession, a.sessCreate, a.localCreate, a.connAck, a.byClientID, a.sessDelete, a.extend)
+	}
+	return c.pathsInlined(handler, core.PathOpts{}, interesting, nil)
+}
+
+// authErrNil returns, for a path of the CONNECT handler, whether the authentication error was nil (true), non-nil (false), and whether it was tested.
 func authErrNil(p *core.Path, authCall *core.Call) (isNil, tested bool) {
 	for i := len(p.Conds) - 1; i >= 0; i-- {
 		cd := p.Conds[i]
@@ -121,7 +144,7 @@ func (c *Ctx) checkSetupGating() {
 		return
 	}
 	c.R.Fn(c.fname(f))
-	paths, err := core.EnumPaths(f, core.PathOpts{})
+	paths, err := c.handlerPaths(f, a)
 	if err != nil {
 		ru.Undecided("paths of the CONNECT handler", c.where(f, f), err.Error())
 		return
